@@ -7,6 +7,8 @@ package actionlint
 // Assumed about gopkg.in/yaml.v3 (library, not verified): a mapping node has an even number of
 // children. actionlint never writes Kind or Content of a node.
 //@ assume_inv yaml.Node: self.Kind == 4 ==> len(self.Content) % 2 == 0
+// Assumed about gopkg.in/yaml.v3: the children of a node are never nil.
+//@ nonnil_elems []*yaml.Node
 
 //@ func (*parser).parseMapping
 //@   ensures [C08] !caseSensitive ==> (forall j :: 0 <= j && j < len(result) ==> folded(result[j].id))
@@ -213,3 +215,7 @@ package actionlint
 //@     body_calls [C13] (*parser).errorAt iff kv.id == "credentials" && (cred.Username == nil || cred.Password == nil)
 // (the pair is also a non-nil field invariant of Credentials objects that reach the tree)
 //@ nonnil Credentials.Username Credentials.Password also C13
+
+// each missing mandatory top-level key is reported on its own
+//@ func (*parser).parse
+//@   ensures [C13] len(n.Content) != 0 && result.On == nil && result.Jobs == nil ==> len(p.errors) >= old(len(p.errors)) + 2
